@@ -173,6 +173,8 @@ pub struct Kernel {
     pub cb_offset_ns: u64,
     /// counts completions posted (any ring)
     pub evseq: u64,
+    /// descriptors whose Close request was cancelled because its ring was closed first
+    pub lost_closes: Vec<i32>,
 }
 
 impl Kernel {
@@ -191,6 +193,7 @@ impl Kernel {
             in_callback: false,
             cb_offset_ns: 0,
             evseq: 0,
+            lost_closes: Vec::new(),
         }
     }
 }
@@ -259,6 +262,26 @@ pub fn begin(cfg: KConfig) {
     clock::set_active(true);
 }
 
+/// Whether the kernel has posted the release notification of the zero-copy send whose data buffer is at
+/// `addr`. `None`: no zero-copy send with that buffer was seen (the run is on the polling driver, or the
+/// send went through another path).
+pub fn zc_released(addr: usize) -> Option<bool> {
+    with_kernel(|k| {
+        let mut seen = false;
+        for c in k.ledger.iter().filter(|c| c.addr == addr && (c.opcode == 47 || c.opcode == 48)) {
+            seen = true;
+            if c.flags & CQE_F_NOTIF != 0 {
+                return Some(true);
+            }
+            // a send that failed outright owes no notification
+            if c.res < 0 && c.flags & CQE_F_MORE == 0 {
+                return Some(true);
+            }
+        }
+        if seen { Some(false) } else { None }
+    })
+}
+
 /// Number of completions the simulated kernel has posted so far in this run.
 pub fn completions_posted() -> u64 {
     with_kernel(|k| k.evseq)
@@ -305,9 +328,12 @@ pub struct EndState {
     pub ledger: Vec<Completion>,
     pub clock_ns: u64,
     pub jobs_left: usize,
+    pub lost_closes: Vec<i32>,
 }
 
 pub fn end() -> EndState {
+    // pool threads outlive the runtime: what was handed to them still runs
+    while pump_once() {}
     check_memory_ledger();
     simcore::quarantine::watch_clear();
     clock::set_active(false);
@@ -321,6 +347,7 @@ pub fn end() -> EndState {
             ledger: std::mem::take(&mut k.ledger),
             clock_ns: k.clock_ns,
             jobs_left: k.jobs.len(),
+            lost_closes: std::mem::take(&mut k.lost_closes),
         };
         // ring memory of rings never closed is released here
         k.rings.clear();
